@@ -27,6 +27,12 @@ def apply(toks, au, opts):
                 out += _call("vx_lossy_string", [toks[i + 5:k]], t.ws)
                 i = k + 5
                 continue
+        # "literal".into()  ->  vx_string_from("literal")
+        if t.kind == "str" and texts(toks, i + 1, 4) == [".", "into", "(", ")"]:
+            au.note("R", '"lit".into() -> vx_string_from("lit")')
+            out += _call("vx_string_from", [[t]], t.ws)
+            i += 5
+            continue
         # "literal".to_string()  ->  vx_string_from("literal")
         if t.kind == "str" and texts(toks, i + 1, 4) == [".", "to_string", "(", ")"]:
             au.note("R", '"lit".to_string() -> vx_string_from("lit")')
@@ -40,8 +46,8 @@ def apply(toks, au, opts):
             recv = out[s:]
             ws0 = recv[0].ws
             del out[s:]
-            au.note("R", f"X.parse::<{ty}>() -> vx_parse_{ty}(X)")
-            out += _call(f"vx_parse_{ty}", [recv], ws0)
+            au.note("R", f"X.parse::<{ty}>() -> vx_parse_{ty}(&X)")
+            out += _call(f"vx_parse_{ty}", [[Tok("p", "&", "")] + [_w(recv[0], "")] + recv[1:]], ws0)
             i += 9
             continue
         # X.contains("literal")  ->  vx_str_contains(&X, "literal")    (str::contains is generic over Pattern)
@@ -53,6 +59,16 @@ def apply(toks, au, opts):
             au.note("R", 'X.contains("lit") -> vx_str_contains(&X, "lit")')
             out += _call("vx_str_contains", [[Tok("p", "&", "")] + [_w(recv[0], "")] + recv[1:], [toks[i + 3]]], ws0)
             i += 5
+            continue
+        # X.as_bytes()  ->  vx_as_bytes(&X)
+        if is_p(t, ".") and is_id(toks[i + 1], "as_bytes") and texts(toks, i + 2, 2) == ["(", ")"]:
+            s = _expr_start(out)
+            recv = out[s:]
+            ws0 = recv[0].ws
+            del out[s:]
+            au.note("R", "X.as_bytes() -> vx_as_bytes(&X)")
+            out += _call("vx_as_bytes", [[Tok("p", "&", "")] + [_w(recv[0], "")] + recv[1:]], ws0)
+            i += 4
             continue
         # Bytes::from(E)  ->  Bytes::vx_from_vec(E)   (From<Vec<u8>> for Bytes)
         if is_id(t, "Bytes") and texts(toks, i + 1, 4) == [":", ":", "from", "("]:
@@ -69,6 +85,21 @@ def apply(toks, au, opts):
         out.append(t)
         i += 1
     toks = out
+    # const NAME: T = E;  at statement position inside a body  ->  let NAME: T = E;   (same value, evaluated once)
+    from .extract import _stmt_pos
+    depth = 0
+    for q in range(len(toks)):
+        if toks[q].kind == "p" and toks[q].text == "{":
+            depth += 1
+        elif toks[q].kind == "p" and toks[q].text == "}":
+            depth -= 1
+        elif is_id(toks[q], "const") and depth >= 1 and q + 2 < len(toks) and toks[q + 1].kind == "id" and is_p(toks[q + 2], ":") and _stmt_pos(toks[:q]) \
+                and not is_id(toks[q + 1], "fn"):
+            # only inside fn bodies: the enclosing item must be a fn (first token sequence contains `fn` before the first `{`)
+            pre = [x.text for x in toks[:q]]
+            if "fn" in pre:
+                au.note("R", f"inner const {toks[q+1].text} -> let")
+                toks[q] = Tok("id", "let", toks[q].ws)
     # type-directed rewrites named by the recipe:  strne=a:b  ->  `a != b` becomes vx_string_ne_str(a, b)
     for spec in filter(None, opts.get("strne", "").split(",")):
         a, b = spec.split(":")
